@@ -5,10 +5,10 @@
    Model/EvmCore.v, which executes every other instruction with the storage of the frame's account.
    A failing or reverting callee leaves the world and the logs as they were before the call.
    Not modelled ([OUnsup]): precompiled contracts (addresses 1..8 and the governance address),
-   CREATE/CREATE2, SELFDESTRUCT, SHA3, EXTCODEHASH, BLOCKHASH, GAS; gas is not metered.
+   GAS; gas is not metered (the deposit of created code is not charged).
    No proofs in this file. *)
 From Coq Require Import ZArith Bool List.
-From AnnVerif Require Import Model.EvmArith Model.EvmCore.
+From AnnVerif Require Import Model.EvmArith Model.Keccak Model.EvmCore.
 Import ListNotations.
 Open Scope Z_scope.
 
@@ -25,14 +25,16 @@ Definition add_balance (w : world) (a : Z) (v : Z) : world :=
 
 Definition addr_of (w : Z) : Z := w mod 2 ^ 160.
 
-Record wstate := mkWs { ws_world : world; ws_logs : list (Z * list Z * list Z) }.  (* logs: address, topics, data; latest first *)
+(* logs: address, topics, data, latest first; dead: the accounts that self-destructed (removed when the transaction ends) *)
+Record wstate := mkWs { ws_world : world; ws_logs : list (Z * list Z * list Z); ws_dead : list Z }.
 
-Record benv := mkBenv { b_origin : Z; b_gasprice : Z; b_coinbase : Z; b_time : Z; b_number : Z; b_difficulty : Z; b_gaslimit : Z }.
+Record benv := mkBenv { b_origin : Z; b_gasprice : Z; b_coinbase : Z; b_time : Z; b_number : Z; b_difficulty : Z; b_gaslimit : Z;
+                        b_blockhash : Z -> Z }.
 Record frame := mkFr { f_addr : Z; f_caller : Z; f_value : Z; f_code : list Z; f_data : list Z; f_static : bool; f_depth : nat }.
 
 Definition env_of (b : benv) (fr : frame) : env :=
   mkEnv (f_addr fr) (b_origin b) (f_caller fr) (f_value fr) (b_gasprice b) (b_coinbase b) (b_time b) (b_number b)
-        (b_difficulty b) (b_gaslimit b) (f_data fr).
+        (b_difficulty b) (b_gaslimit b) (f_data fr) (b_blockhash b).
 
 (* the frame-local machine: what EvmCore keeps, plus the return data of the last call *)
 Record lstate := mkL { l_pc : nat; l_stack : list Z; l_mem : list Z; l_ret : list Z }.
@@ -40,22 +42,28 @@ Record lstate := mkL { l_pc : nat; l_stack : list Z; l_mem : list Z; l_ret : lis
 Inductive fout := FStop (ret : list Z) | FRevert (ret : list Z) | FFail | FOog | FUnsup.
 
 (* the instructions handled here *)
-Inductive winstr := WBalance | WExtcodesize | WExtcodecopy | WRetsize | WRetcopy
-                  | WCall | WCallcode | WDelegatecall | WStaticcall.
+Inductive winstr := WBalance | WExtcodesize | WExtcodecopy | WExtcodehash | WRetsize | WRetcopy
+                  | WCall | WCallcode | WDelegatecall | WStaticcall | WCreate | WCreate2 | WSelfdestruct.
 Definition wdecode (op : Z) : option winstr :=
   if op =? 49 then Some WBalance else if op =? 59 then Some WExtcodesize else if op =? 60 then Some WExtcodecopy
+  else if op =? 63 then Some WExtcodehash
   else if op =? 61 then Some WRetsize else if op =? 62 then Some WRetcopy
   else if op =? 241 then Some WCall else if op =? 242 then Some WCallcode
   else if op =? 244 then Some WDelegatecall else if op =? 250 then Some WStaticcall
+  else if op =? 240 then Some WCreate else if op =? 245 then Some WCreate2
+  else if op =? 255 then Some WSelfdestruct
   else None.
 Definition wkind (i : winstr) : nat * nat :=
   match i with
-  | WBalance | WExtcodesize => (1, 1)
+  | WBalance | WExtcodesize | WExtcodehash => (1, 1)
   | WExtcodecopy => (4, 0)
   | WRetsize => (0, 1)
   | WRetcopy => (3, 0)
   | WCall | WCallcode => (7, 1)
   | WDelegatecall | WStaticcall => (6, 1)
+  | WCreate => (3, 1)
+  | WCreate2 => (4, 1)
+  | WSelfdestruct => (1, 0)
   end%nat.
 
 Definition mmax (a b : mneed) : mneed :=
@@ -72,6 +80,7 @@ Definition wmem (i : winstr) (s : list Z) : mneed :=
   | WRetcopy => mem_need (st s 0) (st s 2)
   | WCall | WCallcode => mmax (mem_need (st s 5) (st s 6)) (mem_need (st s 3) (st s 4))
   | WDelegatecall | WStaticcall => mmax (mem_need (st s 4) (st s 5)) (mem_need (st s 2) (st s 3))
+  | WCreate | WCreate2 => mem_need (st s 1) (st s 2)
   | _ => MNone
   end.
 
@@ -82,6 +91,20 @@ Definition mem_set (mem : list Z) (off size : Z) (v : list Z) : list Z :=
   if size =? 0 then mem else mem_write mem (Z.to_nat off) (firstn (Z.to_nat size) v).
 
 Definition is_write (op : Z) : bool := (op =? 85) || ((160 <=? op) && (op <=? 164)).
+
+(* the address of a created contract *)
+Definition rlp_nonce (n : Z) : list Z :=
+  if n =? 0 then [128] else if n <? 128 then [n]
+  else let bs := bytes_of_word (Z.to_nat ((Z.log2 n) / 8 + 1)) n in (128 + Z.of_nat (length bs)) :: bs.
+Definition create_address (sender nonce : Z) : Z :=
+  let payload := (148 :: bytes_of_word 20 sender) ++ rlp_nonce nonce in
+  addr_of (keccak_word ((192 + Z.of_nat (length payload)) :: payload)).
+Definition create2_address (sender salt : Z) (init : list Z) : Z :=
+  addr_of (keccak_word ((255 :: bytes_of_word 20 sender) ++ bytes_of_word 32 salt ++ keccak256 init)).
+Definition set_nonce (w : world) (a : Z) (n : Z) : world :=
+  let x := get_acc w a in set_acc w a (mkAcc n (a_balance x) (a_code x) (a_store x)).
+Definition set_code (w : world) (a : Z) (c : list Z) : world :=
+  let x := get_acc w a in set_acc w a (mkAcc (a_nonce x) (a_balance x) c (a_store x)).
 
 Section Run.
 Variable b : benv.
@@ -104,7 +127,7 @@ Fixpoint run_frame (fuel : nat) (ws : wstate) (fr : frame) (l : lstate) {struct 
         | inl m' =>
           let ws' := if is_write op
                      then mkWs (set_store (ws_world ws) (f_addr fr) (m_store m'))
-                               (map (fun tl => (f_addr fr, fst tl, snd tl)) (m_logs m') ++ ws_logs ws)
+                               (map (fun tl => (f_addr fr, fst tl, snd tl)) (m_logs m') ++ ws_logs ws) (ws_dead ws)
                      else ws in
           run_frame k ws' fr (mkL (m_pc m') (m_stack m') (m_mem m') (l_ret l))
         | inr (OStop ret _ _) => (ws, FStop ret)
@@ -117,7 +140,7 @@ Fixpoint run_frame (fuel : nat) (ws : wstate) (fr : frame) (l : lstate) {struct 
       let len := length s in
       if Nat.ltb len (fst (wkind i)) then (ws, FFail)
       else if Nat.ltb 1024 (len + snd (wkind i) - fst (wkind i)) then (ws, FFail)
-      else if f_static fr && (match i with WCall => negb (st s 2 =? 0) | _ => false end) then (ws, FFail)
+      else if f_static fr && (match i with WCall => negb (st s 2 =? 0) | WCreate | WCreate2 | WSelfdestruct => true | _ => false end) then (ws, FFail)
       else
         match wmem i s with
         | MFail => (ws, FFail)
@@ -129,6 +152,11 @@ Fixpoint run_frame (fuel : nat) (ws : wstate) (fr : frame) (l : lstate) {struct 
           match i with
           | WBalance => next (a_balance (get_acc (ws_world ws) (addr_of (st s 0))) :: skipn 1 s) mem (l_ret l)
           | WExtcodesize => next (Z.of_nat (length (a_code (get_acc (ws_world ws) (addr_of (st s 0))))) :: skipn 1 s) mem (l_ret l)
+          | WExtcodehash =>
+            (* EIP-1052: zero for an account that does not exist or is empty *)
+            let x := get_acc (ws_world ws) (addr_of (st s 0)) in
+            next ((if (a_nonce x =? 0) && (a_balance x =? 0) && (match a_code x with [] => true | _ => false end)
+                   then 0 else keccak_word (a_code x)) :: skipn 1 s) mem (l_ret l)
           | WExtcodecopy =>
             next (skipn 4 s)
                  (if st s 3 =? 0 then mem
@@ -139,6 +167,44 @@ Fixpoint run_frame (fuel : nat) (ws : wstate) (fr : frame) (l : lstate) {struct 
             let e := st s 1 + st s 2 in
             if (18446744073709551616 <=? e) || (Z.of_nat (length (l_ret l)) <? e) then (ws, FFail)
             else next (skipn 3 s) (if st s 2 =? 0 then mem else mem_write mem (Z.to_nat (st s 0)) (slice (l_ret l) (Z.to_nat (st s 1)) (Z.to_nat (st s 2)))) (l_ret l)
+          | WSelfdestruct =>
+            let benef := addr_of (st s 0) in
+            let bal := a_balance (get_acc (ws_world ws) (f_addr fr)) in
+            if is_precompile benef then (ws, FUnsup)
+            else
+              let w1 := add_balance (ws_world ws) benef bal in
+              let x := get_acc w1 (f_addr fr) in
+              (mkWs (set_acc w1 (f_addr fr) (mkAcc (a_nonce x) 0 (a_code x) (a_store x))) (ws_logs ws) (f_addr fr :: ws_dead ws), FStop [])
+          | WCreate | WCreate2 =>
+            let value := st s 0 in
+            let init := mslice mem (st s 1) (st s 2) in
+            let rest := skipn (fst (wkind i)) s in
+            let self := get_acc (ws_world ws) (f_addr fr) in
+            let pushed ws' v ret := run_frame k ws' fr (mkL (S (l_pc l)) (v :: rest) mem ret) in
+            if Nat.ltb 1024 (f_depth fr) then pushed ws 0 []
+            else if a_balance self <? value then pushed ws 0 []
+            else
+              let nonce := a_nonce self in
+              let w1 := set_nonce (ws_world ws) (f_addr fr) (nonce + 1) in       (* stays, whatever happens next *)
+              let ws1 := mkWs w1 (ws_logs ws) (ws_dead ws) in
+              let new := match i with WCreate => create_address (f_addr fr) nonce | _ => create2_address (f_addr fr) (st s 3) init end in
+              let old := get_acc w1 new in
+              if is_precompile new then (ws, FUnsup)
+              else if negb (a_nonce old =? 0) || (match a_code old with [] => false | _ => true end) then pushed ws1 0 []
+              else
+                let w2 := set_acc (add_balance w1 (f_addr fr) (- value)) new (mkAcc 1 (a_balance old + value) [] []) in
+                match init with
+                | [] => pushed (mkWs w2 (ws_logs ws) (ws_dead ws)) new []
+                | _ =>
+                  match run_frame k (mkWs w2 (ws_logs ws) (ws_dead ws)) (mkFr new (f_addr fr) value init [] false (S (f_depth fr))) (mkL 0 [] [] []) with
+                  | (ws2, FStop ret) =>
+                    if 24576 <? Z.of_nat (length ret) then pushed ws1 0 []
+                    else pushed (mkWs (set_code (ws_world ws2) new ret) (ws_logs ws2) (ws_dead ws2)) new []
+                  | (_, FRevert ret) => pushed ws1 0 ret
+                  | (_, FFail) | (_, FOog) => pushed ws1 0 []
+                  | (_, FUnsup) => (ws, FUnsup)
+                  end
+                end
           | _ =>
             (* the four calls *)
             let to := addr_of (st s 1) in
@@ -169,9 +235,9 @@ Fixpoint run_frame (fuel : nat) (ws : wstate) (fr : frame) (l : lstate) {struct 
               match code with
               | [] =>
                 (* no code: the transfer is all that happens *)
-                run_frame k (mkWs w1 (ws_logs ws)) fr (mkL (S (l_pc l)) (1 :: rest) mem [])
+                run_frame k (mkWs w1 (ws_logs ws) (ws_dead ws)) fr (mkL (S (l_pc l)) (1 :: rest) mem [])
               | _ =>
-                match run_frame k (mkWs w1 (ws_logs ws)) callee (mkL 0 [] [] []) with
+                match run_frame k (mkWs w1 (ws_logs ws) (ws_dead ws)) callee (mkL 0 [] [] []) with
                 | (ws2, FStop ret) => run_frame k ws2 fr (mkL (S (l_pc l)) (1 :: rest) (mem_set mem roff rsize ret) ret)
                 | (_, FRevert ret) => run_frame k ws fr (mkL (S (l_pc l)) (0 :: rest) (mem_set mem roff rsize ret) ret)
                 | (_, FFail) | (_, FOog) => failed tt
@@ -189,10 +255,12 @@ Definition call_world (fuel : nat) (b : benv) (w : world) (callee value : Z) (da
   let w1 := add_balance (add_balance w (b_origin b) (- value)) callee value in
   let code := a_code (get_acc w callee) in
   match code with
-  | [] => (mkWs w1 [], FStop [])
+  | [] => (mkWs w1 [] [], FStop [])
   | _ =>
-    match run_frame b fuel (mkWs w1 []) (mkFr callee (b_origin b) value code data false 1) (mkL 0 [] [] []) with
-    | (ws, FStop ret) => (ws, FStop ret)
-    | (_, o) => (mkWs w [], o)
+    match run_frame b fuel (mkWs w1 [] []) (mkFr callee (b_origin b) value code data false 1) (mkL 0 [] [] []) with
+    | (ws, FStop ret) =>
+      (* the accounts that destroyed themselves are removed when the transaction ends *)
+      (mkWs (fold_left (fun w a => set_acc w a empty_acc) (ws_dead ws) (ws_world ws)) (ws_logs ws) [], FStop ret)
+    | (_, o) => (mkWs w [] [], o)
     end
   end.
